@@ -159,7 +159,13 @@ def _record_spec(X, tname, qname, tag="r"):
         else:
             s16 = X.bv(f"{tag}.serial16", 16)
             serial = (s16 << 16) | 0x0001 if half == "hi" else (0x7A11 << 16) | s16
-        f = [("name", "mname", sub), ("name", "rname", (b"h",) + qname), ("u", "serial", serial, 4), ("u", "refresh", 3600, 4),
+        # the SOA names may lie in a zone that occurs nowhere earlier in the message: a compressing server then points the RNAME's
+        # suffix INTO the MNAME of the same record data (e.g. amy.ns.cloudflare.com / dns.cloudflare.com for a customer domain)
+        zone = X.choose(f"{tag}.soa_zone", ["query-zone", "other-zone"])
+        mname, rname = (sub, (b"h",) + qname) if zone == "query-zone" else ((b"ns", b"zone", b"test"), (b"h", b"zone", b"test"))
+        if zone == "other-zone":
+            X.reach("pointer-into-own-rdata")
+        f = [("name", "mname", mname), ("name", "rname", rname), ("u", "serial", serial, 4), ("u", "refresh", 3600, 4),
              ("u", "retry", 900, 4), ("u", "expire", 604800, 4), ("u", "minimum", 60, 4)]
     else:
         raise AssertionError(tname)
@@ -295,7 +301,7 @@ def obligations(tier):
         obs.append(Symx(f"fwd-{t}", (lambda tn: lambda X: h_forward(X, tn, 3))(t),
                         bounds=f"UDP and TCP; question name from {len(QNAMES)} names (ASCII, IDN); reply with 1 {t} answer (+ optional companion A record in the additional section, owner compressed "
                                "against the first record's rdata name; + optional second {t} answer whose rdata names are pointers into the first record's rdata); owner compressed or not; rdata names compressed / uncompressed / mixed; opaque rdata octets, TTL (non-scanned types), "
-                               "MX preference, SRV port, SOA serial (either half) fully symbolic; TXT as 1-2 character-strings of 1-3 symbolic octets or one 192-octet string",
-                        encoded=ENCODED, must_reach=["query-forwarded", "reply-forwarded", "two-records", "twin-record", "owner-compressed"] + (["rdata-compressed"] if TYPES[t] in dnsref.LAYOUT else []),
+                               "MX preference, SRV port, SOA serial (either half) fully symbolic; SOA names in the query's zone or in a zone that first occurs inside the record data; TXT as 1-2 character-strings of 1-3 symbolic octets or one 192-octet string",
+                        encoded=ENCODED, must_reach=["query-forwarded", "reply-forwarded", "two-records", "twin-record", "owner-compressed"] + (["rdata-compressed"] if TYPES[t] in dnsref.LAYOUT else []) + (["pointer-into-own-rdata"] if t == "SOA" else []),
                         stubs=STUBS, parallel_depth=3 if t in ("TXT", "MX", "SOA", "SRV") else 0, budget_s=1200 if q else 3000))
     return obs
